@@ -45,6 +45,9 @@ type vfC02Test struct {
 	RespData    []int      `json:"respData"` // sizes of the response data items
 	HasDef      bool       `json:"hasDef"`
 	Err         *vfC02Err  `json:"err"`
+	// LaterDef: messages after the first one of a client or bidi stream carry a response definition of their own
+	// (different data, headers and an error); service.proto: "should be ignored in subsequent messages"
+	LaterDef bool `json:"laterDef"`
 }
 
 type vfC02Case struct {
@@ -126,6 +129,14 @@ func vfC02TestCase(i int, t vfC02Test) *conformancev1.TestCase {
 					def.Response = &conformancev1.UnaryResponseDefinition_ResponseData{ResponseData: respData[0]}
 				}
 			}
+			if k > 0 && t.LaterDef && t.HasDef {
+				def = &conformancev1.UnaryResponseDefinition{ResponseHeaders: []*conformancev1.Header{{Name: "x-decoy", Value: []string{"later"}}}}
+				if k%2 == 1 {
+					def.Response = &conformancev1.UnaryResponseDefinition_ResponseData{ResponseData: []byte("DECOY")}
+				} else {
+					def.Response = &conformancev1.UnaryResponseDefinition_Error{Error: &conformancev1.Error{Code: conformancev1.Code_CODE_DATA_LOSS, Message: proto.String("decoy")}}
+				}
+			}
 			if conformancev1.StreamType(t.Stream) == conformancev1.StreamType_STREAM_TYPE_UNARY {
 				msg = &conformancev1.UnaryRequest{ResponseDefinition: def, RequestData: data}
 			} else {
@@ -135,6 +146,13 @@ func vfC02TestCase(i int, t vfC02Test) *conformancev1.TestCase {
 			var def *conformancev1.StreamResponseDefinition
 			if first {
 				def = &conformancev1.StreamResponseDefinition{ResponseHeaders: vfC02Headers(t.RespHeaders), ResponseTrailers: vfC02Headers(t.RespTrailer), ResponseData: respData, Error: errProto}
+			}
+			if k > 0 && t.LaterDef && t.HasDef {
+				def = &conformancev1.StreamResponseDefinition{ResponseHeaders: []*conformancev1.Header{{Name: "x-decoy", Value: []string{"later"}}},
+					ResponseData: [][]byte{[]byte("DECOY")}}
+				if k%2 == 0 {
+					def.Error = &conformancev1.Error{Code: conformancev1.Code_CODE_DATA_LOSS, Message: proto.String("decoy")}
+				}
 			}
 			if conformancev1.StreamType(t.Stream) == conformancev1.StreamType_STREAM_TYPE_SERVER_STREAM {
 				msg = &conformancev1.ServerStreamRequest{ResponseDefinition: def, RequestData: data}
@@ -280,6 +298,7 @@ func vfGenC02Headers(t *rapid.T, label string) []vfC02Hdr {
 
 func vfGenC02Test(t *rapid.T) vfC02Test {
 	tc := vfC02Test{Stream: int32(rapid.IntRange(1, 5).Draw(t, "stream")), HasDef: rapid.IntRange(0, 9).Draw(t, "hasDef") != 0}
+	tc.LaterDef = rapid.IntRange(0, 2).Draw(t, "laterDef") == 0
 	switch tc.Stream {
 	case 1, 3:
 		tc.NumReq = 1
